@@ -35,134 +35,131 @@ theorem iterItems_addr (rank : String) (emptyP : π → Bool) (body : S → Int 
 
 end
 
+/-- the `i`-th position a position generator delivers (0 when it has run out) -/
+def nthPos (l : List Nat) (i : Nat) : Nat := (l.drop i).headD 0
+
+theorem nthPos_zero (l : List Nat) : nthPos l 0 = l.headD 0 := by simp [nthPos]
+
+theorem nthPos_tail (l : List Nat) (i : Nat) : nthPos l.tail i = nthPos l (i + 1) := by
+  cases l <;> simp [nthPos]
+
 section
 variable {α β : Type}
 
-/-- `and_iterator`: every traced use of operand `a` names the element at that position of the
-    sequence `a` presents; same for `b` -/
-theorem andSteps_addr (rank tyA tyB : String) (ta tb : Bool) (hAB : tyA ≠ tyB)
-    (ap bp : Nat) (a : Fib Int α) (b : Fib Int β) :
-    ∀ (r ty : String) (c pos : Int), Step.emit (.use r ty c pos) ∈ andSteps rank tyA tyB ta tb ap bp a b →
+theorem optUse_eq (t : Bool) (rank ty0 : String) (c0 : Int) (n : Nat) (r ty : String) (c pos : Int)
+    (h : Item.use r ty c pos ∈ optUse t rank ty0 c0 n) : r = rank ∧ ty = ty0 ∧ c = c0 ∧ pos = (n : Int) := by
+  unfold optUse at h
+  split at h
+  · simp at h; exact ⟨h.1, h.2.1, h.2.2.1, h.2.2.2⟩
+  · simp at h
+
+/-- `and_iterator`: every traced use of operand `a` names the `i`-th element `a` presents together
+    with the `i`-th position of `a`'s position generator; same for `b` -/
+theorem andSteps_addr (rank tyA tyB : String) (ta tb : Bool)
+    (pa pb : List Nat) (a : Fib Int α) (b : Fib Int β) :
+    ∀ (r ty : String) (c pos : Int), Step.emit (.use r ty c pos) ∈ andSteps rank tyA tyB ta tb pa pb a b →
       r = rank ∧
-      ((ty = tyA ∧ ∃ (i : Nat) (p : α), pos = ((ap + i : Nat) : Int) ∧ a[i]? = some (c, p)) ∨
-       (ty = tyB ∧ ∃ (i : Nat) (p : β), pos = ((bp + i : Nat) : Int) ∧ b[i]? = some (c, p))) := by
-  have optA : ∀ (t : Bool) (ca : Int) (n : Nat) (r ty : String) (c pos : Int),
-      Item.use r ty c pos ∈ optUse t rank tyA ca n → r = rank ∧ ty = tyA ∧ c = ca ∧ pos = (n : Int) := by
-    intro t ca n r ty c pos h
-    unfold optUse at h
-    split at h
-    · simp at h; exact ⟨h.1, h.2.1, h.2.2.1, h.2.2.2⟩
-    · simp at h
-  have optB : ∀ (t : Bool) (cb : Int) (n : Nat) (r ty : String) (c pos : Int),
-      Item.use r ty c pos ∈ optUse t rank tyB cb n → r = rank ∧ ty = tyB ∧ c = cb ∧ pos = (n : Int) := by
-    intro t cb n r ty c pos h
-    unfold optUse at h
-    split at h
-    · simp at h; exact ⟨h.1, h.2.1, h.2.2.1, h.2.2.2⟩
-    · simp at h
-  fun_induction andSteps rank tyA tyB ta tb ap bp a b with
+      ((ty = tyA ∧ ∃ (i : Nat) (p : α), pos = ((nthPos pa i : Nat) : Int) ∧ a[i]? = some (c, p)) ∨
+       (ty = tyB ∧ ∃ (i : Nat) (p : β), pos = ((nthPos pb i : Nat) : Int) ∧ b[i]? = some (c, p))) := by
+  fun_induction andSteps rank tyA tyB ta tb pa pb a b with
   | case1 => intro r ty c pos h; simp at h
-  | case2 ap _ ca pa ra =>
+  | case2 pa _ ca xa ra =>
     intro r ty c pos h
     simp only [List.mem_append, List.mem_map, List.mem_singleton, Step.emit.injEq, reduceCtorEq, or_false] at h
     obtain ⟨j, hj, rfl⟩ := h
-    obtain ⟨e1, e2, e3, e4⟩ := optA _ _ _ _ _ _ _ hj
-    exact ⟨e1, Or.inl ⟨e2, 0, pa, by simp [e4], by simp [e3]⟩⟩
-  | case3 _ bp cb pb rb =>
+    obtain ⟨e1, e2, e3, e4⟩ := optUse_eq _ _ _ _ _ _ _ _ _ hj
+    exact ⟨e1, Or.inl ⟨e2, 0, xa, by simp [e4, nthPos_zero], by simp [e3]⟩⟩
+  | case3 _ pb cb xb rb =>
     intro r ty c pos h
     simp only [List.mem_append, List.mem_map, List.mem_singleton, Step.emit.injEq, reduceCtorEq, or_false] at h
     obtain ⟨j, hj, rfl⟩ := h
-    obtain ⟨e1, e2, e3, e4⟩ := optB _ _ _ _ _ _ _ hj
-    exact ⟨e1, Or.inr ⟨e2, 0, pb, by simp [e4], by simp [e3]⟩⟩
-  | case4 ap bp pa ra ca pb rb ih =>
+    obtain ⟨e1, e2, e3, e4⟩ := optUse_eq _ _ _ _ _ _ _ _ _ hj
+    exact ⟨e1, Or.inr ⟨e2, 0, xb, by simp [e4, nthPos_zero], by simp [e3]⟩⟩
+  | case4 pa pb xa ra ca xb rb ih =>
     intro r ty c pos h
     simp only [List.mem_append, List.mem_map, List.mem_cons, Step.emit.injEq, reduceCtorEq, false_or] at h
     rcases h with ⟨j, hj, rfl⟩ | h
     · rcases hj with hj | hj
-      · obtain ⟨e1, e2, e3, e4⟩ := optA _ _ _ _ _ _ _ hj
-        exact ⟨e1, Or.inl ⟨e2, 0, pa, by simp [e4], by simp [e3]⟩⟩
-      · obtain ⟨e1, e2, e3, e4⟩ := optB _ _ _ _ _ _ _ hj
-        exact ⟨e1, Or.inr ⟨e2, 0, pb, by simp [e4], by simp [e3]⟩⟩
+      · obtain ⟨e1, e2, e3, e4⟩ := optUse_eq _ _ _ _ _ _ _ _ _ hj
+        exact ⟨e1, Or.inl ⟨e2, 0, xa, by simp [e4, nthPos_zero], by simp [e3]⟩⟩
+      · obtain ⟨e1, e2, e3, e4⟩ := optUse_eq _ _ _ _ _ _ _ _ _ hj
+        exact ⟨e1, Or.inr ⟨e2, 0, xb, by simp [e4, nthPos_zero], by simp [e3]⟩⟩
     · obtain ⟨e1, h'⟩ := ih r ty c pos h
       refine ⟨e1, ?_⟩
       rcases h' with ⟨e2, i, p, e3, e4⟩ | ⟨e2, i, p, e3, e4⟩
-      · exact Or.inl ⟨e2, i + 1, p, by rw [e3]; congr 1; omega, by simpa using e4⟩
-      · exact Or.inr ⟨e2, i + 1, p, by rw [e3]; congr 1; omega, by simpa using e4⟩
-  | case5 ap bp ca pa ra cb pb rb hne hlt ih =>
+      · exact Or.inl ⟨e2, i + 1, p, by rw [e3, nthPos_tail], by simpa using e4⟩
+      · exact Or.inr ⟨e2, i + 1, p, by rw [e3, nthPos_tail], by simpa using e4⟩
+  | case5 pa pb ca xa ra cb xb rb hne hlt ih =>
     intro r ty c pos h
     simp only [List.mem_append, List.mem_map, List.mem_cons, Step.emit.injEq, reduceCtorEq, false_or] at h
     rcases h with ⟨j, hj, rfl⟩ | h
-    · obtain ⟨e1, e2, e3, e4⟩ := optA _ _ _ _ _ _ _ hj
-      exact ⟨e1, Or.inl ⟨e2, 0, pa, by simp [e4], by simp [e3]⟩⟩
+    · obtain ⟨e1, e2, e3, e4⟩ := optUse_eq _ _ _ _ _ _ _ _ _ hj
+      exact ⟨e1, Or.inl ⟨e2, 0, xa, by simp [e4, nthPos_zero], by simp [e3]⟩⟩
     · obtain ⟨e1, h'⟩ := ih r ty c pos h
       refine ⟨e1, ?_⟩
       rcases h' with ⟨e2, i, p, e3, e4⟩ | ⟨e2, i, p, e3, e4⟩
-      · exact Or.inl ⟨e2, i + 1, p, by rw [e3]; congr 1; omega, by simpa using e4⟩
+      · exact Or.inl ⟨e2, i + 1, p, by rw [e3, nthPos_tail], by simpa using e4⟩
       · exact Or.inr ⟨e2, i, p, e3, e4⟩
-  | case6 ap bp ca pa ra cb pb rb hne hlt ih =>
+  | case6 pa pb ca xa ra cb xb rb hne hlt ih =>
     intro r ty c pos h
     simp only [List.mem_append, List.mem_map, List.mem_cons, Step.emit.injEq, reduceCtorEq, false_or] at h
     rcases h with ⟨j, hj, rfl⟩ | h
-    · obtain ⟨e1, e2, e3, e4⟩ := optB _ _ _ _ _ _ _ hj
-      exact ⟨e1, Or.inr ⟨e2, 0, pb, by simp [e4], by simp [e3]⟩⟩
+    · obtain ⟨e1, e2, e3, e4⟩ := optUse_eq _ _ _ _ _ _ _ _ _ hj
+      exact ⟨e1, Or.inr ⟨e2, 0, xb, by simp [e4, nthPos_zero], by simp [e3]⟩⟩
     · obtain ⟨e1, h'⟩ := ih r ty c pos h
       refine ⟨e1, ?_⟩
       rcases h' with ⟨e2, i, p, e3, e4⟩ | ⟨e2, i, p, e3, e4⟩
       · exact Or.inl ⟨e2, i, p, e3, e4⟩
-      · exact Or.inr ⟨e2, i + 1, p, by rw [e3]; congr 1; omega, by simpa using e4⟩
+      · exact Or.inr ⟨e2, i + 1, p, by rw [e3, nthPos_tail], by simpa using e4⟩
 
 end
 
 section
 variable {α β : Type}
 
-/-- leader-follower: the leader's position is the index in the sequence it presents; the follower is
-    probed at the lower bound of the coordinate in the fiber as stored (its index when present) -/
+/-- leader-follower: the leader's position comes from its position generator; the follower is probed at
+    the lower bound of the coordinate in the fiber as stored (its index when present) -/
 theorem lfSteps_addr (rankA rankB tyA tyB : String) (ta : Bool) (dfl : β) (b : Fib Int β) :
-    ∀ (a : Fib Int α) (i0 : Nat) (r ty : String) (c pos : Int),
-      Step.emit (.use r ty c pos) ∈ lfSteps rankA rankB tyA tyB ta dfl b i0 a →
-      (r = rankA ∧ ty = tyA ∧ ∃ (i : Nat) (p : α), pos = ((i0 + i : Nat) : Int) ∧ a[i]? = some (c, p)) ∨
+    ∀ (a : Fib Int α) (pa : List Nat) (r ty : String) (c pos : Int),
+      Step.emit (.use r ty c pos) ∈ lfSteps rankA rankB tyA tyB ta dfl b pa a →
+      (r = rankA ∧ ty = tyA ∧ ∃ (i : Nat) (p : α), pos = ((nthPos pa i : Nat) : Int) ∧ a[i]? = some (c, p)) ∨
       (r = rankB ∧ ty = tyB ∧ pos = ((lowerBound b c : Nat) : Int) ∧ ∃ (i : Nat) (p : α), a[i]? = some (c, p)) := by
   intro a
   induction a with
-  | nil => intro i0 r ty c pos h; simp [lfSteps] at h
+  | nil => intro pa r ty c pos h; simp [lfSteps] at h
   | cons e rest ih =>
-    intro i0 r ty c pos h
+    intro pa r ty c pos h
     obtain ⟨c0, p0⟩ := e
     simp only [lfSteps, List.mem_append, List.mem_map, List.mem_cons, Step.emit.injEq, reduceCtorEq, false_or] at h
     rcases h with ⟨x, hx, rfl⟩ | h | h
-    · unfold optUse at hx
-      split at hx
-      · simp at hx
-        obtain ⟨rfl, rfl, rfl, rfl⟩ := hx
-        exact Or.inl ⟨rfl, rfl, 0, p0, by simp, by simp⟩
-      · simp at hx
+    · obtain ⟨e1, e2, e3, e4⟩ := optUse_eq _ _ _ _ _ _ _ _ _ hx
+      exact Or.inl ⟨e1, e2, 0, p0, by simp [e4, nthPos_zero], by simp [e3]⟩
     · simp only [Item.use.injEq] at h
       obtain ⟨rfl, rfl, rfl, rfl⟩ := h
       exact Or.inr ⟨rfl, rfl, rfl, 0, p0, by simp⟩
-    · rcases ih (i0 + 1) r ty c pos h with ⟨e1, e2, i, p, e3, e4⟩ | ⟨e1, e2, e3, i, p, e4⟩
-      · exact Or.inl ⟨e1, e2, i + 1, p, by rw [e3]; congr 1; omega, by simpa using e4⟩
+    · rcases ih pa.tail r ty c pos h with ⟨e1, e2, i, p, e3, e4⟩ | ⟨e1, e2, e3, i, p, e4⟩
+      · exact Or.inl ⟨e1, e2, i + 1, p, by rw [e3, nthPos_tail], by simpa using e4⟩
       · exact Or.inr ⟨e1, e2, e3, i + 1, p, by simpa using e4⟩
 
-/-- `project_iterator`: the traced use carries the SOURCE coordinate and its index in the sequence the
-    source presents -/
+/-- `project_iterator`: the traced use carries the SOURCE coordinate and the position the source's
+    position generator gives for it -/
 theorem projLoop_addr (srcRank ty : String) (t : Bool) (off : Int) (lo hi : Option Int) :
-    ∀ (a : Fib Int α) (j0 : Nat) (s : Nat) (r ty' : String) (c pos : Int),
-      Step.emit (.useSaved s r ty' c pos) ∈ projLoop srcRank ty t off lo hi j0 a →
-      s = 1 ∧ r = srcRank ∧ ty' = ty ∧ ∃ (i : Nat) (p : α), pos = ((j0 + i : Nat) : Int) ∧ a[i]? = some (c, p) ∧
+    ∀ (a : Fib Int α) (pa : List Nat) (s : Nat) (r ty' : String) (c pos : Int),
+      Step.emit (.useSaved s r ty' c pos) ∈ projLoop srcRank ty t off lo hi pa a →
+      s = 1 ∧ r = srcRank ∧ ty' = ty ∧ ∃ (i : Nat) (p : α), pos = ((nthPos pa i : Nat) : Int) ∧ a[i]? = some (c, p) ∧
         inLo lo (c + off) = true ∧ aboveHi hi (c + off) = false := by
   intro a
   induction a with
-  | nil => intro j0 s r ty' c pos h; simp [projLoop] at h
+  | nil => intro pa s r ty' c pos h; simp [projLoop] at h
   | cons e rest ih =>
-    intro j0 s r ty' c pos hm
+    intro pa s r ty' c pos hm
     obtain ⟨oc, p⟩ := e
-    have step : ∀ (hm' : Step.emit (Item.useSaved s r ty' c pos) ∈ projLoop srcRank ty t off lo hi (j0 + 1) rest),
-        s = 1 ∧ r = srcRank ∧ ty' = ty ∧ ∃ (i : Nat) (p' : α), pos = ((j0 + i : Nat) : Int) ∧
+    have step : ∀ (hm' : Step.emit (Item.useSaved s r ty' c pos) ∈ projLoop srcRank ty t off lo hi pa.tail rest),
+        s = 1 ∧ r = srcRank ∧ ty' = ty ∧ ∃ (i : Nat) (p' : α), pos = ((nthPos pa i : Nat) : Int) ∧
           ((oc, p) :: rest)[i]? = some (c, p') ∧ inLo lo (c + off) = true ∧ aboveHi hi (c + off) = false := by
       intro hm'
-      obtain ⟨e1, e2, e3, i, p', e4, e5, e6⟩ := ih (j0 + 1) s r ty' c pos hm'
-      exact ⟨e1, e2, e3, i + 1, p', by rw [e4]; congr 1; omega, by simpa using e5, e6⟩
+      obtain ⟨e1, e2, e3, i, p', e4, e5, e6⟩ := ih pa.tail s r ty' c pos hm'
+      exact ⟨e1, e2, e3, i + 1, p', by rw [e4, nthPos_tail], by simpa using e5, e6⟩
     by_cases h1 : aboveHi hi (oc + off) = true
     · simp [projLoop, h1] at hm
     · by_cases h2 : inLo lo (oc + off) = true
@@ -175,7 +172,7 @@ theorem projLoop_addr (srcRank ty : String) (t : Bool) (off : Int) (lo hi : Opti
             simp only [if_true, List.mem_cons, Step.emit.injEq, Item.useSaved.injEq, reduceCtorEq,
               List.not_mem_nil, or_false] at hm
             obtain ⟨rfl, rfl, rfl, rfl, rfl⟩ := hm
-            exact ⟨rfl, rfl, rfl, 0, p, by simp, by simp, h2, by simpa using h1⟩
+            exact ⟨rfl, rfl, rfl, 0, p, by simp [nthPos_zero], by simp, h2, by simpa using h1⟩
         · exact step hm
       · simp only [projLoop, h1, h2, if_false, Bool.false_eq_true] at hm
         exact step hm
@@ -221,6 +218,38 @@ theorem lazyItems_addr (rank : String) (body : S → Int → β → S × σ) :
 
 end
 
+/-- `iterPositions()` and iteration agree: the `i`-th position delivered is the index, in the fiber as
+    stored, of the `i`-th element presented -/
+theorem filter_zipIdx_storage {α : Type} (l : List α) (q : α → Bool) (i : Nat) (e : α)
+    (h : (l.filter q)[i]? = some e) :
+    l[nthPos ((l.zipIdx.filter (fun x => q x.1)).map (·.2)) i]? = some e ∧ q e = true := by
+  have hf : l.filter q = (l.zipIdx.filter (fun x => q x.1)).map (·.1) := by
+    have : l.filter q = (l.zipIdx.map (·.1)).filter q := by rw [List.zipIdx_map_fst]
+    rw [this, List.filter_map]; rfl
+  rw [hf, List.getElem?_map] at h
+  cases hF : (l.zipIdx.filter (fun x => q x.1))[i]? with
+  | none => rw [hF] at h; simp at h
+  | some x =>
+    rw [hF] at h
+    simp only [Option.map_some, Option.some.injEq] at h
+    have hmem : x ∈ l.zipIdx.filter (fun x => q x.1) := List.mem_of_getElem? hF
+    rw [List.mem_filter] at hmem
+    have hidx : nthPos ((l.zipIdx.filter (fun x => q x.1)).map (·.2)) i = x.2 := by
+      unfold nthPos
+      rw [← List.map_drop]
+      have : (l.zipIdx.filter (fun x => q x.1)).drop i = x :: (l.zipIdx.filter (fun x => q x.1)).drop (i + 1) := by
+        rw [List.drop_eq_getElem_cons (List.getElem?_eq_some_iff.1 hF).1]
+        rw [(List.getElem?_eq_some_iff.1 hF).2]
+      rw [this]; simp
+    rw [hidx, ← h]
+    exact ⟨List.mem_zipIdx_iff_getElem?.1 hmem.1, hmem.2⟩
+
+theorem present_storage (dflt : Int) (t : AnyTree) (i : Nat) (e : Int × AnyTree)
+    (h : (presentAny dflt t)[i]? = some e) :
+    (children t)[nthPos (presentIdx dflt t) i]? = some e ∧ anyEmpty dflt e.2 = false := by
+  have := filter_zipIdx_storage (children t) (fun e => !anyEmpty dflt e.2) i e h
+  exact ⟨this.1, by simpa using this.2⟩
+
 /-- an operand that stores no empty element presents exactly what it stores -/
 theorem presentAny_eq_children (dflt : Int) (t : AnyTree)
     (h : ∀ e ∈ children t, anyEmpty dflt e.2 = false) : presentAny dflt t = children t := by
@@ -240,14 +269,30 @@ theorem popYield_bpos (pst : PopSt π) (c : Int) (bp : β) :
   repeat' split
   all_goals rfl
 
-/-- `lshift_iterator`, source side: `populate_i` rows carry the offered coordinate and its index in
-    the sequence the source yields; the consumer's `iter` rows likewise -/
+theorem popYield_bposs (pst : PopSt π) (c : Int) (bp : β) :
+    (popYield cfg mk rm emptyP body pst c bp).1.bposs = pst.bposs.map List.tail := by
+  unfold popYield
+  simp only
+  repeat' split
+  all_goals rfl
+
+/-- the position `populate_i` reports for the `i`-th element offered from now on: what the source's
+    position generator delivers (a concrete source fiber), or the running count (a lazy source) -/
+def srcPosAt (pst : PopSt π) (i : Nat) : Nat :=
+  match pst.bposs with
+  | some l => nthPos l i
+  | none => pst.bpos + i
+
+/-- `lshift_iterator`, source side: `populate_i` rows carry the offered coordinate and the position the
+    source's position generator gives for it; the consumer's `iter` rows carry its index in the
+    sequence the source yields -/
 theorem popItems_src_addr (ok : PopTypesOK cfg) :
     ∀ (steps : List (Step β)) (pst : PopSt π) (ty : String) (c pos : Int),
       (ty = cfg.srcTy ∨ ty = "iter") →
       (∀ i, Step.emit i ∈ steps → itemKey i ≠ some (cfg.rank, ty)) →
       Item.use cfg.rank ty c pos ∈ (popItems cfg mk rm emptyP body pst steps).2 →
-      ∃ (i : Nat) (p : β), pos = ((pst.bpos + i : Nat) : Int) ∧ (yieldsOf steps)[i]? = some (c, p) := by
+      ∃ (i : Nat) (p : β), pos = (((if ty = "iter" then pst.bpos + i else srcPosAt pst i) : Nat) : Int) ∧
+        (yieldsOf steps)[i]? = some (c, p) := by
   intro steps
   induction steps with
   | nil =>
@@ -273,17 +318,18 @@ theorem popItems_src_addr (ok : PopTypesOK cfg) :
       obtain ⟨ins, new, removed, cur, rp, wp, e⟩ := popYield_items cfg mk rm emptyP body pst c0 p0
       rw [e] at h
       simp only [List.mem_append, List.mem_cons] at h
-      have here : c = c0 ∧ pos = (pst.bpos : Int) → ∃ (i : Nat) (p : β), pos = ((pst.bpos + i : Nat) : Int) ∧
-          (yieldsOf (Step.yield c0 p0 :: rest))[i]? = some (c, p) := by
-        rintro ⟨rfl, rfl⟩
-        exact ⟨0, p0, by simp, by simp [yieldsOf]⟩
       rcases h with (h | h | h | h | h | h | h) | h
       · -- popPre: the source use, or a read of the inserting search
         unfold popPre at h
         rcases List.mem_append.1 h with h | h
         · split at h
           · simp only [List.mem_singleton, Item.use.injEq, true_and] at h
-            exact here ⟨h.2.1, h.2.2⟩
+            obtain ⟨e1, e2, e3⟩ := h
+            have hni : ty ≠ "iter" := by rw [e1]; exact ok.si
+            refine ⟨0, p0, ?_, by simp [yieldsOf, e2]⟩
+            rw [e3]
+            simp only [hni, if_false, srcPosAt]
+            cases pst.bposs <;> simp [nthPos_zero]
           · simp at h
         · split at h
           · have := (scanReads_plain (σ := σ) emptyP cfg.rank cfg.readTy pst.oldEnd c0 pst.toInsert.length
@@ -301,13 +347,21 @@ theorem popItems_src_addr (ok : PopTypesOK cfg) :
           · exact absurd (h.1.symm.trans e') ok.rs
           · exact absurd (h.1.symm.trans e') ok.ri
       · simp only [Item.use.injEq, true_and] at h
-        exact here ⟨h.2.1, h.2.2⟩
+        obtain ⟨e1, e2, e3⟩ := h
+        exact ⟨0, p0, by simp [e1, e3], by simp [yieldsOf, e2]⟩
       · cases h
       · cases h
       · rcases popPost_cases (σ := σ) cfg removed c0 wp with e1 | e1 <;> rw [e1] at h <;> simp at h
       · obtain ⟨i, p, e1, e2⟩ := ih _ ty c pos hty hk' h
-        rw [popYield_bpos] at e1
-        exact ⟨i + 1, p, by rw [e1]; congr 1; omega, by simpa [yieldsOf] using e2⟩
+        refine ⟨i + 1, p, ?_, by simpa [yieldsOf] using e2⟩
+        rw [e1]
+        congr 1
+        split
+        · rw [popYield_bpos]; omega
+        · simp only [srcPosAt, popYield_bposs, popYield_bpos]
+          cases pst.bposs with
+          | none => simp; omega
+          | some l => simp [nthPos_tail]
 
 end
 
@@ -328,7 +382,7 @@ theorem yieldsOf_emits (l : List (Item PEmpty)) : yieldsOf (l.map (Step.emit (β
   | cons x rest ih => simpa [yieldsOf] using ih
 
 /-- `and_iterator` yields exactly the two-finger intersection of C04 -/
-theorem andSteps_yields (rank tyA tyB : String) (ta tb : Bool) (ap bp : Nat) (a : Fib Int α) (b : Fib Int β) :
+theorem andSteps_yields (rank tyA tyB : String) (ta tb : Bool) (ap bp : List Nat) (a : Fib Int α) (b : Fib Int β) :
     yieldsOf (andSteps rank tyA tyB ta tb ap bp a b) = andMerge a b := by
   fun_induction andSteps rank tyA tyB ta tb ap bp a b with
   | case1 => simp [yieldsOf, andMerge]
@@ -343,7 +397,7 @@ theorem andSteps_yields (rank tyA tyB : String) (ta tb : Bool) (ap bp : Nat) (a 
 
 /-- leader-follower yields every presented leader element, with the follower's stored payload or a default -/
 theorem lfSteps_yields (rankA rankB tyA tyB : String) (ta : Bool) (dfl : β) (b : Fib Int β) :
-    ∀ (a : Fib Int α) (i : Nat),
+    ∀ (a : Fib Int α) (i : List Nat),
       yieldsOf (lfSteps rankA rankB tyA tyB ta dfl b i a) = a.map (fun e => (e.1, (e.2, (posLookup b e.1).getD dfl))) := by
   intro a
   induction a with
@@ -356,7 +410,7 @@ theorem lfSteps_yields (rankA rankB tyA tyB : String) (ta : Bool) (dfl : β) (b 
 /-- a projection yields the shifted coordinates inside the interval, up to the first one at or above
     its upper end -/
 theorem projLoop_yields (srcRank ty : String) (t : Bool) (off : Int) (lo hi : Option Int) :
-    ∀ (a : Fib Int α) (j : Nat),
+    ∀ (a : Fib Int α) (j : List Nat),
       yieldsOf (projLoop srcRank ty t off lo hi j a) =
         ((a.takeWhile (fun e => !aboveHi hi (e.1 + off))).filter (fun e => inLo lo (e.1 + off))).map
           (fun e => (e.1 + off, e.2)) := by
